@@ -3,5 +3,6 @@ CONSTANTS
   MaxLen = 5
   BackslashSep = FALSE
   RandMax = 24
+  PadMax = 0
 INIT GenInit
 NEXT GenNext
